@@ -3,3 +3,4 @@
 package all
 
 import _ "verif/harness/internal/props/c12"
+import _ "verif/harness/internal/props/c12/mysql"
